@@ -1,12 +1,28 @@
 use std::{
-    io::{BufRead, ErrorKind, Result as IoResult},
+    io::{BufRead, Chain, Cursor, ErrorKind, Read, Result as IoResult},
     slice,
 };
 
 use super::encoding::Encoding;
 
+const MAX_BOM_LEN: usize = 3;
+
+/// Bytes that were taken from the reader while looking for a BOM.
+struct Sniffed {
+    buf: [u8; MAX_BOM_LEN],
+    start: usize,
+    end: usize,
+}
+
+impl AsRef<[u8]> for Sniffed {
+    fn as_ref(&self) -> &[u8] {
+        &self.buf[self.start..self.end]
+    }
+}
+
 pub struct Decoder<R> {
-    inner: R,
+    // Sniffed bytes that are not part of a BOM come first again
+    inner: Chain<Cursor<Sniffed>, R>,
     read_buf: Vec<u8>,
     // Only used for UTF-16/invalid UTF-8 encoded data
     decode_buf: String,
@@ -15,35 +31,53 @@ pub struct Decoder<R> {
 
 impl<R: BufRead> Decoder<R> {
     pub fn new(mut inner: R) -> IoResult<Self> {
+        let (encoding, sniffed) = Self::read_bom(&mut inner)?;
+
         Ok(Self {
-            encoding: Self::read_bom(&mut inner)?,
+            encoding,
             read_buf: Vec::new(),
             decode_buf: String::new(),
-            inner,
+            inner: Cursor::new(sniffed).chain(inner),
         })
     }
 
-    fn read_bom(reader: &mut R) -> IoResult<Encoding> {
-        let buf = loop {
+    fn read_bom(reader: &mut R) -> IoResult<(Encoding, Sniffed)> {
+        let mut buf = [0; MAX_BOM_LEN];
+        let mut len = 0;
+
+        // The reader may hand out fewer bytes at a time than a BOM is long so
+        // they need to be gathered first.
+        while len < MAX_BOM_LEN {
             let available = match reader.fill_buf() {
                 Ok(n) => n,
                 Err(ref err) if err.kind() == ErrorKind::Interrupted => continue,
                 Err(err) => return Err(err),
             };
 
-            let len = available.len();
-
-            if len >= 3 || len == 0 {
-                break available;
+            if available.is_empty() {
+                break;
             }
 
-            reader.consume(len);
+            let mut consumed = 0;
+
+            for &byte in available.iter().take(MAX_BOM_LEN - len) {
+                buf[len] = byte;
+                len += 1;
+                consumed += 1;
+            }
+
+            reader.consume(consumed);
+        }
+
+        let (encoding, start) = Encoding::from_bom(&buf[..len]);
+
+        let sniffed = Sniffed {
+            buf,
+            start,
+            end: len,
         };
 
-        let (encoding, consumed) = Encoding::from_bom(buf);
-        reader.consume(consumed);
-
-        Ok(encoding)
+        Ok((encoding, sniffed))
     }
 
     pub fn read_line(&mut self) -> IoResult<Option<&str>> {
